@@ -147,6 +147,11 @@ def _check(prop, tier, seed, wd, rp, rule, cfgs_quick, cfgs_thorough, mandatory,
     bname, bconsts = qcfg("graphs-sim-5x7", NV=5, InitBV=5, NL=7, Kinds=kinds, AllowNone=False, OnlyOps={"new"})
     run_config(run, prop, bname, bconsts, wd, seed, simulate="num=12" if tier == "quick" else "num=80", depth=8,
                probe_filter=big_filter(4, 10 if tier == "quick" else 5), big=True)
+    if prop == "C14":
+        from . import image_exec
+        dev = image_exec.check(run, wd, seed, tier)     # informational: render_to_image / is_plantuml_installed (spec/EGImage.tla)
+        if dev:
+            run.notes.append(f"render_to_image: {len(dev)} call(s) deviate from spec/EGImage.tla (no listed property; see evidence)")
     run.exhaustive = True
     run.assumptions = ASSUME
     return run.finish(nontrivial_filter=nontrivial, mandatory=mandatory)
